@@ -236,6 +236,61 @@ def shard_programs(cfgname, seed, count):
     return acc
 
 
+def shard_resumed(cfgname, seed, count):
+    """User-mode code that takes exceptions repeatedly on one long-lived instance: SVC / UDF / attack instructions; after every exception the embedder's
+    'kernel' resumes the User program (CPSR and PC put back through the API) and now and then reprograms what decides where the next exception goes
+    (SCTLR.V, VBAR) - every later exception must again arrive at the vector the CURRENT registers name, with SPSR.M recording User"""
+    acc = Acc()
+    rng = random.Random(seed)
+    rows = [r for r in ATTACK if r in e1prop.ROWS and e1prop.ROWS[r][0] == 'arm']
+    for _ in range(count):
+        words = []
+        for _w in range(10):
+            r = rng.random()
+            if r < 0.4:
+                words.append(0xEF000000 | rng.getrandbits(24))              # SVC
+            elif r < 0.6:
+                words.append(0xE7F000F0 | (rng.getrandbits(12) << 8) | rng.getrandbits(4))       # UDF
+            elif r < 0.8:
+                tn, row = e1prop.ROWS[rows[rng.randrange(len(rows))]]
+                w = e1prop.build_word(row, rng.getrandbits(32), rng.getrandbits(31))
+                words.append(w | (0xE << 28) if 'c' in row.fields else w)
+            else:
+                words.append(0xE1A00000)
+        code = b''.join(e1.enc_arm(w) for w in words)
+        case = gen.step_case(rng, cfgname, False, code, mode='usr', it=0, mpu=False, mmu=False, code_base=0x8000)
+        cpu = e1.build(case)
+        cfg = case['cfg']
+        user_cpsr = case['state']['cpsr']
+        ops = []
+        verdict = None
+        entries = 0
+        for i in range(10):
+            pre = target.snapshot(cpu, False)
+            pc0 = pre['R.PC']
+            exc = target.step_budget(cpu)
+            post = target.snapshot(cpu, False)
+            verdict, detail = judge(pre, post, exc, cfg)
+            if verdict not in ('stayed', 'exception', 'notimpl'):
+                acc.violation('C19:resumed:' + (verdict.split(':')[0][:60] if verdict != 'host-error' else 'host-error'), dict(case, resumed=ops, failed_at=i), {'verdict': verdict, 'detail': detail, 'history': ops})
+                break
+            if verdict == 'notimpl':
+                break
+            if verdict == 'exception':
+                entries += 1
+                # the 'kernel' returns to the User program at the next instruction, and sometimes moves the vectors first
+                upd = {'cpsr': user_cpsr, 'R.PC': (pc0 + 4) & 0xFFFFFFFF}
+                if rng.random() < 0.5:
+                    key, bit = rng.choice((('sctlr', 13), ('sctlr', 13), ('vbar', 7), ('vbar', 5), ('sctlr', 30)))
+                    if key in post:
+                        upd[key] = post[key] ^ (1 << bit)
+                target.apply_state(cpu, upd)
+                ops.append([i, {k_: v_ for k_, v_ in upd.items()}])
+        acc.case(entries >= 2, ('resumed', cfgname, code, user_cpsr), cls='resumed:%d-entries' % min(entries, 3),
+                 sample=lambda: {'cfg': cfgname, 'code': code.hex()[:32], 'entries': entries, 'reprogrammed': [o for o in ops if len(o[1]) > 2][:3]})
+    return acc
+
+
 def shard_unpriv(seed, count):
     """LDRT/STRT-class instructions executed in a privileged mode against MPU permissions that allow privileged but deny
     User access must abort (and transfer nothing)"""
@@ -393,6 +448,7 @@ def run(ctx):
         k += 1
     tasks += [(shard_unpriv, (ctx.shard_seed(k + i), ctx.n(600, 10000))) for i in range(4)]
     tasks += [(shard_cp15, (i, 8, ctx.shard_seed(k + 80 + i))) for i in range(8)]
+    tasks += [(shard_resumed, (c, ctx.shard_seed(k + 100 + i), ctx.n(250, 5000))) for i, c in enumerate(CFGS)]
     tasks += [(shard_ld_unpriv, (ctx.shard_seed(k + 30 + i), ctx.n(250, 5000))) for i in range(4)]
     tasks += [(e1prop.shard, ('vf.props.c19:PLAN_VMSA', ctx.shard_seed(k + 10 + i), ctx.n(150, 3000))) for i in range(8)]
     from vf.props import c07
@@ -410,6 +466,20 @@ def _dispatch(fn, args):
 
 
 def replay(case, bucket=None):
+    if 'resumed' in case:
+        # the recorded history: step; after the steps listed in `resumed` the kernel's register writes; the step `failed_at` is judged
+        cpu = e1.build(case)
+        upd = {int(i): u for i, u in case['resumed']}
+        for i in range(case['failed_at'] + 1):
+            pre = target.snapshot(cpu, False)
+            exc = target.step_budget(cpu)
+            post = target.snapshot(cpu, False)
+            if i == case['failed_at']:
+                verdict, detail = judge(pre, post, exc, case['cfg'])
+                return [] if verdict in ('stayed', 'exception', 'notimpl') else [verdict]
+            if i in upd:
+                target.apply_state(cpu, upd[i])
+        return []
     if case.get('ld'):
         from vf.props import c15
         return c15.replay(case, bucket)
